@@ -35,6 +35,19 @@ theorem strengthsUndSign_perm (A : AMat Int n) :
   · unfold total; exact fsum2_congr_perm σ _ _ (fun i j => by simp)
   · unfold total; exact fsum2_congr_perm σ _ _ (fun i j => by simp)
 
+/-! ### jdegree: the joint degree distribution and its three summaries -/
+
+theorem jdegCell_perm (A : AMat Int n) (a b : Int) : jdegCell (permA σ A) a b = jdegCell A a b := by
+  unfold jdegCell
+  rw [degreesDir_perm]
+  exact fsum_congr_perm σ _ _ (fun i => by simp)
+
+theorem jdegSummary_perm (A : AMat Int n) : jdegSummary (permA σ A) = jdegSummary A := by
+  unfold jdegSummary
+  rw [degreesDir_perm]
+  simp only [Prod.mk.injEq]
+  refine ⟨?_, ?_, ?_⟩ <;> exact fsum_congr_perm σ _ _ (fun i => by simp)
+
 /-! ### sums over the upper triangle of a symmetric table -/
 
 theorem triuLe_double (g : Fin n → Fin n → Int) (hg : ∀ i j, g i j = g j i) :
